@@ -36,7 +36,8 @@ RULE = ('cases: (rows = [(time, nested row)], embed_path, query paths). Rows fol
         'Non-trivial: ≥ 2 rows, ≥ 2 leaf paths and (a falsy value or a missing variable or a query).')
 TRUSTED = ['serialize_value / deserialize_value (orjson round trip; identity on the plain values used)']
 ASSUMPTIONS = [
-    'values are None, bool, int (64-bit), str, list, dict with string keys; no Quantity values, no '
+    'modelled values are None, bool, int (64-bit), str, list, dict with string keys (quantities: qviews family, '
+    'oracle only, variables of a fixed shape with registry units fg / um / mmol/L); no '
     'strings that a registered deserializer would pick up; no variable named "time" at the top level',
     'leaf strings never contain a key as substring, lists hold no key strings (get_in through them '
     'answers "absent", as modelled)',
@@ -597,6 +598,12 @@ LEVEL_TEXT = ('Lean 4 theorems, for all histories and all query sets (unbounded)
               'a correspondence check through a real RAMEmitter and every accessor.')
 LEVEL_NOTE = ('Trusted: Lean kernel; axioms ⊆ {propext, Classical.choice, Quot.sound}; the hand-written model '
               'of emitter.py / dict_utils.py helpers validated by differential runs; orjson serialisation '
-              'round trip taken as the identity on plain values; Quantity values and the database emitter '
-              'are out of scope.')
+              'round trip taken as the identity on plain values; Quantity values are covered by the oracle-only qviews family, not by a theorem; the database emitter '
+              'is out of scope.')
 TECHNIQUE = 'Lean 4 proof by induction over rows and paths + model/code correspondence (differential)'
+
+
+# histories with quantities: heterogeneous records, lists of quantities, nested containers
+from harness import qviews as _qv                       # noqa: E402
+from harness.mixins import add_family as _add_family    # noqa: E402
+_add_family(globals(), _qv, 'qviews', _qv.oracle, share=0.1)
